@@ -7,3 +7,4 @@ pairs, tied to the code by the registry harness (go/cmd/harness/c06.go, codec_*.
 -/
 import Dblib.Props.C06.Basic
 import Dblib.Props.C06.Cursor
+import Dblib.Props.C06.Fields
